@@ -455,7 +455,7 @@ def reject_cases():
                      'multi-ens-prefix', 'multi-ens-bare-prefix',
                      'names-samples-mismatch', 'idl-count-mismatch', 'decreasing-range', 'bad-idl-type'):
             for pos in ('first', 'middle', 'last'):
-                for carrier in ('list', 'ndarray', 'range', 'uint32', 'uint8-list'):
+                for carrier in ('list', 'ndarray', 'range', 'uint32', 'uint8-list', 'int8'):
                     cases.append({'kind': 'reject', 'what': kind, 'nrep': nrep, 'pos': pos, 'carrier': carrier})
     for kind in ('cov-bar-name', 'cov-asymmetric', 'cov-indefinite', 'cov-nonsquare', 'cov-wrong-means', 'cov-negative-variance'):
         for dim in (1, 2, 3):
@@ -464,6 +464,10 @@ def reject_cases():
     for kind in ('alias-idl-list', 'alias-idl-ndarray', 'alias-samples', 'alias-names', 'alias-cov-matrix', 'alias-cov-means', 'alias-jackknife'):
         for nrep in (1, 2):
             cases.append({'kind': 'reject', 'what': kind, 'nrep': nrep})
+    for kind in ('int8', 'int16', 'uint8', 'uint16'):
+        cases.append({'kind': 'reject', 'what': 'wrap-' + kind})
+    for kind in ('int-cov-mean', 'int-cov-means', 'int-samples', 'int-jackknife', 'int-bootstrap', 'float32-samples'):
+        cases.append({'kind': 'reject', 'what': 'ctor-' + kind})
     for kind in ('jack-idl-too-long', 'jack-idl-too-short', 'jack-nonstring-name', 'jack-short', 'jack-unsorted-idl', 'boot-nonstring-name'):
         for n in (5, 6, 9):
             cases.append({'kind': 'reject', 'what': kind, 'n': n})
@@ -505,6 +509,58 @@ def run_case(case):
             acc.fail('reject:%s' % what, case, 'cov_Obs accepted %s (dim %d): %r' % (what, dim, r))
         except Exception:
             acc.ok((what, dim), True, 'rejected')
+        return acc
+    if what.startswith('wrap-'):
+        # configuration numbers in a narrow integer type whose differences wrap around: an unsorted list looks increasing
+        dt = getattr(np, what[5:])
+        info = np.iinfo(dt)
+        top = int(info.max)
+        lists = [np.array([top - 27, top - 17, top - 7, top, top + 1], dtype=np.int64).astype(dt),           # last entry wrapped to the minimum
+                 np.array([top - 3, top - 2, top - 1, top, top + 1, top + 2], dtype=np.int64).astype(dt)]
+        bad = None
+        for il in lists:
+            try:
+                o = pe.Obs([alpha.rng('wrap', what).normal(size=len(il))], ['A|r1'], idl=[il])
+                bad = bad or 'accepted the unsorted list %s (%s) as %s' % (il.tolist(), what[5:], o.idl)
+            except Exception:
+                pass
+        ok = np.array([top - 40, top - 30, top - 20, top - 10, top], dtype=np.int64).astype(dt)
+        try:
+            o = pe.Obs([alpha.rng('wrap2', what).normal(size=5)], ['A|r1'], idl=[ok])
+            bad = bad or compare.wf_any(o, pe) or (None if list(o.idl['A|r1']) == [top - 40, top - 30, top - 20, top - 10, top] else 'valid list %s stored as %s' % (ok.tolist(), o.idl))
+        except Exception as e:
+            bad = bad or 'a valid %s list was rejected: %r' % (what[5:], e)
+        if bad:
+            acc.fail('reject:unsorted-idl:%s' % what, case, bad)
+        else:
+            acc.ok((what,), True, 'rejected')
+        acc.sample(case)
+        return acc
+    if what.startswith('ctor-'):
+        # integer-valued (or single precision) input to the constructors: the observable still has a floating-point central value
+        r = alpha.rng('ctor', what)
+        ints = np.array([3, 1, 4, 1, 5, 9, 2, 6])
+        if what == 'ctor-int-cov-mean':
+            objs = [pe.cov_Obs(1, 0.1, 'ci'), pe.cov_Obs(1, 0.1, 'ci') * 2, pe.cov_Obs(np.int64(2), 0.1, 'cj') if False else pe.cov_Obs(2, 1, 'cj')]
+        elif what == 'ctor-int-cov-means':
+            objs = list(pe.cov_Obs([1, 2], [[1, 0], [0, 4]], 'ck')) + [pe.cov_Obs([1, 2], [[1, 0], [0, 4]], 'ck')[0] + 1]
+        elif what == 'ctor-int-samples':
+            objs = [pe.Obs([ints], ['A|r1']), pe.Obs([ints, ints[:5]], ['A|r1', 'A|r2']), pe.Obs([ints], ['A|r1']) * 2]
+        elif what == 'ctor-float32-samples':
+            objs = [pe.Obs([ints.astype(np.float32) / 3], ['A|r1'])]
+        elif what == 'ctor-int-jackknife':
+            objs = [pe.import_jackknife(np.array([3, 1, 2, 3, 4, 5, 3]), 'A|r1'), pe.import_jackknife(np.array([3, 1, 2, 3, 4, 5, 3]), 'A|r1') + 1]
+        else:
+            tab = np.array([[(i + s_) % 6 for i in range(6)] for s_ in range(6)] + [[0, 0, 1, 2, 3, 4], [5, 5, 1, 2, 3, 4]])
+            objs = [pe.import_bootstrap(np.arange(9), 'A|r1', tab)]
+        bad = None
+        for o in objs:
+            bad = bad or compare.wf_any(o, pe)
+        if bad:
+            acc.fail('wf:constructor:%s' % what[5:], case, '%s: %s' % (what[5:], bad))
+        else:
+            acc.ok((what,), True, 'constructed')
+        acc.sample(case)
         return acc
     if what.startswith('alias-'):
         try:
@@ -613,6 +669,8 @@ def run_case(case):
             return np.array(c, dtype=np.uint32)
         if carrier == 'uint8-list':
             return [np.uint8(v) for v in c]
+        if carrier == 'int8':
+            return np.array([v + 113 for v in c]).astype(np.int8)       # 113 + 15 = 128 wraps to -128: unsorted / duplicate after the wrap
         if carrier == 'range' and len(set(np.diff(c))) == 1 and np.diff(c)[0] > 0:
             return range(c[0], c[-1] + 1, c[1] - c[0])
         return list(c)
